@@ -204,6 +204,10 @@ def sample(ctx, budget=1.0, hint=None, broken=None):
         if r.random() < 0.3:
             form = r.choice(['pos', 'neg', 'slice'])
             j = r.randrange(n)
+            warm = r.random() < 0.6
+            if warm:      # fill the length caches first: the edits below must invalidate what they touch
+                path.length(); path.point(0.3)
+                desc += ' then length(), point(0.3)'
             new = _rand_seg(spt, r, segs[j].start + 0, 1.0, 'line')
             new = P.Line(new.start, new.end + complex(0.5, 7.25))
             if form == 'pos':
@@ -214,6 +218,12 @@ def sample(ctx, budget=1.0, hint=None, broken=None):
                 path[j:j + 1] = [new]
             segs[j] = new
             desc += ' then item %s assignment at %d of %r' % (form, j, new)
+            if r.random() < 0.5:      # a second edit at the same position, back to back (no query in between)
+                ins = P.Line(new.start + complex(3, 0.5), new.start + complex(-1.25, 4))
+                path.insert(j, ins)
+                segs.insert(j, ins)
+                n += 1
+                desc += ' then insert(%d, %r)' % (j, ins)
         lens = [s.length() for s in segs]
         tot = sum(lens)
         if tot <= 0 or not all(math.isfinite(l) for l in lens):
